@@ -951,10 +951,16 @@ class VerilogOperator(ast.AST):
             
         str += self.op
 
-        if (isinstance(self.right, VerilogOperator)):
-            str += '(' + Python2VerilogTranspiler.toVerilog(self.right) + ')'
+        right = self.right
+        if (isinstance(right, list) and len(right) == 1):
+            # a Compare keeps its comparators as a list: unwrap it, so that a nested
+            # operator on the right of a comparison is parenthesised like any other operand
+            right = right[0]
+
+        if (isinstance(right, VerilogOperator)):
+            str += '(' + Python2VerilogTranspiler.toVerilog(right) + ')'
         else:
-            str += Python2VerilogTranspiler.toVerilog(self.right)
+            str += Python2VerilogTranspiler.toVerilog(right)
 
         return str
 
